@@ -6,7 +6,9 @@ non-batched replica (parameter slice p applied to data slices d1, d2).
 Kernel structure: the same triple read as (A, B, D) places two parameter batch shapes on the nodes of a composite kernel
 (A = () / B = (): the composite inherits its batch shape from a sub-kernel); size coincidences: every case is replayed with a generic
 number of rows and with the number of rows equal to the feature size and to the size of every batch axis (Shapes.tla ShCoClass).
-Model lists: TLC enumerates every sequence of member kinds (homogeneous and heterogeneous)."""
+Model lists: TLC enumerates every sequence of member kinds (homogeneous and heterogeneous).
+Objectives: TLC enumerates every constructible configuration (objective class of gpytorch.mlls x likelihood / noise model x priors x added
+loss term x combine_terms); each is replayed on the triple lattice and element b of every term is compared in value with the replica."""
 import os
 import re
 import zlib
@@ -21,7 +23,8 @@ NPTS, MPTS, DFEAT = 4, 3, 2                  # rows of x1 / x2 (generic: NPTS is
 MAXMEMBERS = 3                               # longest model list
 # rejected variants of the code that the lattice must be able to tell from the code (Batch.tla Variants): the diag heuristic counting
 # the batch axes of what the node OWNS instead of the kernel's batch shape; get_fantasy_model carrying a noise entry over a None entry
-VARIANTS = {"diag_own_batch", "fantasy_noise_carry"}
+# the normaliser of an objective reading the size of the whole batched tensor (numel) instead of the replica's number of points
+VARIANTS = {"diag_own_batch", "fantasy_noise_carry", "norm_numel"}
 NTRAIN, NTEST, NIND, NUM_DATA = 5, 3, 3, 17
 KTOL = (1e-10, 1e-10)                        # kernels / means / likelihood: rtol, atol
 MTOL = (1e-7, 1e-9)                          # posterior / mll / elbo
@@ -29,12 +32,15 @@ MTOL = (1e-7, 1e-9)                          # posterior / mll / elbo
 # Site families of Batch.tla whose REPAIRED arithmetic the model should transcribe.  Empty = the arithmetic of the pinned commit, for
 # which TLC predicts failures (MODEL-DRIFT lines) that the replay confirms.  When a fix lands in /repo add its family here so that the
 # model follows the code: "rq_alpha" (RQKernel.forward), "const_kernel" (ConstantKernel.forward), "call_diag" (Kernel.__call__ diag
-# heuristic), "multitask" (MultitaskKernel.forward repeat).
+# heuristic), "multitask" (MultitaskKernel.forward repeat), "obj_prior" (the reduction of the log prior terms in
+# ExactMarginalLogLikelihood._add_other_terms and _ApproximateMarginalLogLikelihood.forward).
 REPAIRED = set(filter(None, os.environ.get("VERIF_C08_REPAIRED", "rq_alpha,const_kernel,call_diag").split(",")))  # fix: commits for RQ alpha and ConstantKernel are in /repo
 
 SITES = ["lengthscale_x1", "lengthscale_x2", "outputscale_full", "outputscale_diag", "rq_alpha_full", "rq_alpha_diag",
          "constant_mean", "linear_mean_weights", "linear_mean_bias", "noise", "const_kernel_full", "const_kernel_diag",
-         "var_inducing_values", "multitask_task_covar", "call_diag", "call_diag_n1", "call_diag_n2", "call_diag_n3", "call_diag_ignored"]
+         "var_inducing_values", "multitask_task_covar", "call_diag", "call_diag_n1", "call_diag_n2", "call_diag_n3", "call_diag_ignored",
+         "norm_exact_mll", "norm_loo", "norm_approx", "prior_exact_ev0", "prior_exact_ev1", "prior_exact_ev2", "prior_approx"]
+OBJ_CLASSES = ("exact_mll", "loo", "elbo", "pll", "gamma_elbo")           # Batch.tla ObjClasses
 
 
 # =============================================================================================
@@ -69,7 +75,8 @@ STRUCT_INVARIANTS = ["StructBatchIsBroadcast", "CoincidencesCovered", "StructAli
 
 
 def run_tlc(ck):
-    """Returns (cases, rejected, predictions, list configurations).  Generation, structure, model-list, algebra and per-site alignment runs."""
+    """Returns (cases, rejected, predictions, list configurations, objective configurations).  Generation, structure, model-list, objective,
+    algebra and per-site alignment runs."""
     global ALLROWS
     ALLROWS = ck.tier == "thorough"
     wd = os.path.join(tlc.BUILD, PID, "mc")
@@ -79,14 +86,19 @@ def run_tlc(ck):
         f_str = [ex.submit(tlc.run, "Batch", write_cfg(wd, "struct%d" % i, [], STRUCT_INVARIANTS, struct=part), name=PID + "/struct%d" % i, dump=True,
                            check=False, workers=1, timeout=900, extra=["-continue"], **NOCOV) for i, part in enumerate(STRUCT_SPLIT)]
         f_alg = ex.submit(tlc.run, "Batch", write_cfg(wd, "algebra", [], ["Algebra", "CoincidencesCovered"]), name=PID + "/algebra", check=False, workers=2, timeout=900, **NOCOV)
-        gen = tlc.run("Batch", write_cfg(wd, "gen", [], ["RepsComplete", "ListIndependent"], family="both"), name=PID + "/gen", dump=True, check=False,
+        gen = tlc.run("Batch", write_cfg(wd, "gen", [], ["RepsComplete", "ListIndependent", "ObjectivesWellFormed", "NormVariantNeedsBatch"], family="both"), name=PID + "/gen", dump=True, check=False,
                       workers=2, timeout=900, **NOCOV)
-        ck.add_tlc(gen, "Batch gen (every triple, every b, replica indices, site predictions, row counts with their coincidence classes; every sequence of member kinds of a model list)")
+        ck.add_tlc(gen, "Batch gen (every triple, every b, replica indices, site predictions, row counts with their coincidence classes; every sequence of member kinds of a model list; every configuration of an objective)")
         if gen.violation is not None or gen.rc != 0:
             raise tlc.TLCError("Batch.tla generation run failed (%s):\n%s" % ((gen.violation or {}).get("name"), gen.stdout[-1500:]))
-        cases, rejected, configs = [], [], []
+        cases, rejected, configs, objectives = [], [], [], []
         for st in gen.states():
             c = st["c"]
+            if "obj" in c:           # objectives: a configuration with its terms and the sites that transcribe its arithmetic
+                o = c["obj"]
+                objectives.append(dict(cls=str(o["cls"]), lik=str(o["lik"]), prior=bool(o["prior"]), added=str(o["added"]), combine=bool(o["combine"]),
+                                       terms=sorted(str(t) for t in c["terms"]), sites=sorted(str(t) for t in c["sites"])))
+                continue
             if "kinds" in c:         # model lists: a sequence of member kinds (output i of every operation reads member i only)
                 configs.append(dict(kinds=[str(k) for k in c["kinds"]], noise=_t(c["noise"]), hetero=bool(c["hetero"]),
                                     variant_leaks=any(set(d) != {i + 1} for op in c["vdeps"].values() for i, d in enumerate(op))))
@@ -97,6 +109,7 @@ def run_tlc(ck):
             cases.append(dict(P=_t(c["P"]), D1=_t(c["D1"]), D2=_t(c["D2"]), out=_t(c["out"]), y=_t(c["y"]),
                               reps=[dict(b=_t(r["b"]), p=_t(r["p"]), d1=_t(r["d1"]), d2=_t(r["d2"]), y=_t(r["y"])) for r in c["reps"]],
                               pred={str(k): str(v) for k, v in c["pred"].items()},
+                              vnorm={str(k): str(v) for k, v in c["vnorm"].items()},
                               rows=[dict(n=int(r["n"]), batch=bool(r["batch"]), co=_co_label(r)) for r in c["rows"]]))
         if not cases or not rejected:
             ck.vacuous("Batch.tla produced %d broadcastable and %d rejected triples" % (len(cases), len(rejected)))
@@ -114,6 +127,13 @@ def run_tlc(ck):
         configs.sort(key=lambda c: (len(c["kinds"]), c["kinds"]))
         if not any(c["variant_leaks"] for c in configs) or not any(c["hetero"] for c in configs):
             ck.vacuous("Batch.tla model lists: no configuration of member kinds tells the variant fantasy_noise_carry from the code (%d configurations)" % len(configs))
+        # ---- objectives
+        objectives.sort(key=obj_name)
+        if sorted(set(o["cls"] for o in objectives)) != sorted(OBJ_CLASSES):
+            raise core.Machinery("the objective classes of checks/c08.py and Batch.tla ObjClasses differ: %s" % sorted(set(o["cls"] for o in objectives)))
+        for cl in OBJ_CLASSES:
+            if not any(c["vnorm"][cl] != "ok" and len(c["reps"]) >= 2 for c in cases):
+                ck.vacuous("Batch.tla objectives: no triple tells the variant norm_numel from the code for %s" % cl)
         # ---- kernel structure
         by = {(tuple(c["P"]), tuple(c["D1"]), tuple(c["D2"])): c for c in cases}
         for c in cases:
@@ -152,7 +172,9 @@ def run_tlc(ck):
         if not nvb and "call_diag" in REPAIRED:      # (the heuristic of the pinned commit reads no batch shape of the kernel: the variant is the code)
             ck.vacuous("Batch.tla kernel structure: no (structure, A, B, D, rows) cell tells the variant diag_own_batch from the code")
         ck.section("tlc", structure_triples_where_variant_diag_own_batch_differs=nvb, structure_triples_predicted_failing=nsb,
-                   list_configurations=len(configs), list_configurations_where_variant_fantasy_noise_carry_leaks=sum(c["variant_leaks"] for c in configs))
+                   list_configurations=len(configs), list_configurations_where_variant_fantasy_noise_carry_leaks=sum(c["variant_leaks"] for c in configs),
+                   objective_configurations=len(objectives),
+                   triples_where_variant_norm_numel_differs=sum(1 for c in cases if any(v != "ok" for v in c["vnorm"].values())))
         alg = f_alg.result()
         ck.add_tlc(alg, "Batch algebra invariants")
         if alg.violation is not None or alg.rc != 0:
@@ -176,7 +198,13 @@ def run_tlc(ck):
             ck.model_drift("Batch.tla: site %s (model of the current code) violates SitesAligned on %d of %d triples (predicted %s), e.g. P=%s D1=%s D2=%s "
                            "- a prediction the replay has to confirm" % (s, len(failing[s]), len(cases), "/".join(kinds),
                                                                          failing[s][0]["P"], failing[s][0]["D1"], failing[s][0]["D2"]))
-    return cases, rejected, preds, configs
+    return cases, rejected, preds, configs, objectives
+
+
+def obj_name(o):
+    """loo(gaussian), elbo(student_t,prior,terms), exact_mll(hetero,prior,noise_model)"""
+    return "%s(%s%s%s%s)" % (o["cls"], o["lik"], ",prior" if o["prior"] else "", "," + o["added"] if o["added"] != "none" else "",
+                             "" if o["combine"] else ",terms")
 
 
 def _co_label(r):
@@ -888,10 +916,201 @@ def svgp_worker(item):
 
 
 # =============================================================================================
+# objectives (Batch.tla Family = "objective"): every class of gpytorch.mlls that takes a batched model, with every likelihood / noise model it
+# can be constructed with, with and without priors / added loss terms / combine_terms.  Exact GPs: P = batch shape of the hyperparameters,
+# D1 = of the training inputs, targets broadcast(P, D1).  SVGP: as in svgp_worker (D2 = batch shape of the inducing points).
+# =============================================================================================
+OBJ_EXACT = ("exact_mll", "loo")
+OBJ_MODEL = "Constant+Scale(Matern2.5_ARD)"      # hyperparameters of shape batch (constant, outputscale), batch + (1,) (noise), batch + (1, d) (lengthscale)
+
+
+def _obj_class(cls):
+    from gpytorch import mlls
+    return dict(exact_mll=mlls.ExactMarginalLogLikelihood, loo=mlls.LeaveOneOutPseudoLikelihood, elbo=mlls.VariationalELBO,
+                pll=mlls.PredictiveLogLikelihood, gamma_elbo=mlls.GammaRobustVariationalELBO)[cls]
+
+
+def _add_priors(mod):
+    """a (non-batched) prior on every hyperparameter that carries the batch shape: outputscale and the constant of the mean (shape batch),
+    noise (batch + (1,)), ARD lengthscale (batch + (1, d)) - Batch.tla sites prior_exact_ev0 / ev1 / ev2, prior_approx"""
+    from gpytorch import kernels as K, means, priors
+    from gpytorch.likelihoods.noise_models import _HomoskedasticNoiseBase
+    for _, m in list(mod.named_modules()):
+        if isinstance(m, K.ScaleKernel):
+            m.register_prior("outputscale_prior", priors.GammaPrior(2.0, 3.0), lambda mm: mm.outputscale)
+        if isinstance(m, K.Kernel) and m.has_lengthscale:
+            m.register_prior("lengthscale_prior", priors.GammaPrior(3.0, 2.0), lambda mm: mm.lengthscale)
+        if isinstance(m, means.ConstantMean):
+            m.register_prior("constant_prior", priors.NormalPrior(0.1, 1.3), lambda mm: mm.constant)
+        if isinstance(m, _HomoskedasticNoiseBase):
+            m.register_prior("noise_prior", priors.GammaPrior(1.5, 2.0), lambda mm: mm.noise)
+    return mod
+
+
+def _obj_likelihood(torch, lik, B, fixed, noise_gp=None):
+    """Batch.tla ObjLiks"""
+    from gpytorch import likelihoods as L
+    from gpytorch.likelihoods.gaussian_likelihood import _GaussianLikelihoodBase
+    S = torch.Size(B)
+    if lik == "gaussian":
+        return L.GaussianLikelihood(batch_shape=S)
+    if lik == "fixed":
+        return L.FixedNoiseGaussianLikelihood(fixed)
+    if lik == "fixed_learn":
+        return L.FixedNoiseGaussianLikelihood(fixed, learn_additional_noise=True, batch_shape=S)
+    if lik == "hetero":
+        return _GaussianLikelihoodBase(L.HeteroskedasticNoise(noise_gp))
+    if lik == "student_t":
+        return L.StudentTLikelihood(batch_shape=S)
+    if lik == "bernoulli":
+        return L.BernoulliLikelihood()
+    if lik == "laplace":
+        return L.LaplaceLikelihood(batch_shape=S)
+    if lik == "beta":
+        return L.BetaLikelihood(batch_shape=S)
+    raise core.Machinery("unknown likelihood kind " + lik)
+
+
+def obj_sites(o, mode):
+    """the sites of Batch.tla that transcribe the arithmetic behind this cell (ObjSites; with combine_terms=False every term is a cell)"""
+    if mode == "kl":
+        return []
+    if mode == "data":
+        return [s for s in o["sites"] if s.startswith("norm_")]
+    if mode == "prior":
+        return [s for s in o["sites"] if s.startswith("prior_")]
+    return list(o["sites"])
+
+
+def _obj_exact_cell(torch, o, case, seed):
+    import gpytorch
+    name = obj_name(o)
+    P, D1, Y = case["P"], case["D1"], case["y"]
+    g = _gen(torch, seed, "objective", name, P, D1)
+    tx = torch.rand(*D1, NTRAIN, DFEAT, generator=g, dtype=torch.float64)
+    ty = torch.randn(*Y, NTRAIN, generator=g, dtype=torch.float64)
+    fixed = 0.05 + 0.2 * torch.rand(*P, NTRAIN, generator=g, dtype=torch.float64)
+    ny = 0.3 * torch.randn(*Y, NTRAIN, generator=g, dtype=torch.float64)        # targets of the noise GP (hetero)
+    cls = _obj_class(o["cls"])
+
+    def build(B, x, y, fx, yn):
+        noise_gp = _exact_model(torch, OBJ_MODEL, B, x, yn) if o["lik"] == "hetero" else None
+        m = _exact_model(torch, OBJ_MODEL, B, x, y, _obj_likelihood(torch, o["lik"], B, fx, noise_gp))
+        if o["prior"]:
+            _add_priors(m)
+        if o["added"] == "noise_model":
+            m.register_added_loss_term("noise_model")
+            m.update_added_loss_term("noise_model", gpytorch.mlls.NoiseModelAddedLossTerm(noise_gp))
+        return m.double()
+
+    def value(m, x, y):
+        m.train()
+        return cls(m.likelihood, m)(m(x), y, *((x,) if o["lik"] == "hetero" else ()))
+    mb = _randomize(torch, build(tuple(P), tx, ty, fixed, ny), _gen(torch, seed, "objective params", name, P))
+
+    def ref_of(rep):
+        p, d1, y = tuple(rep["p"]), tuple(rep["d1"]), tuple(rep["y"])
+        mr = _copy_state(mb, build((), tx[d1], ty[y], fixed[p], ny[y]), {tuple(P): p, (): ()})
+        return value(mr, tx[d1], ty[y])
+    ok, res = core.guarded(value, mb, tx, ty)
+    if not ok:
+        ok2, r2 = core.guarded(ref_of, case["reps"][0])
+        if not ok2:
+            raise core.Machinery("objective %s: the non-batched replica fails too on %s: %s" % (name, _tri(case), r2))
+        return [_result("objective", name, "value", case, seed, "raises", "the batched objective raises %s; every replica evaluates" % res, len(case["reps"]),
+                        extra_case=dict(obj=o))]
+    outcome, detail = _compare_elements(torch, res, case, ref_of, MTOL, "objective", index_key="y")
+    return [_result("objective", name, "value", case, seed, outcome, detail, len(case["reps"]), extra_case=dict(obj=o))]
+
+
+def _obj_var_cell(torch, o, case, seed):
+    name = obj_name(o)
+    P, D1, D2, Out = case["P"], case["D1"], case["D2"], case["out"]
+    variant = "Cholesky-whitened"
+    g = _gen(torch, seed, "objective", name, P, D1, D2)
+    Z = torch.rand(*D2, NIND, DFEAT, generator=g, dtype=torch.float64)
+    x = torch.rand(*D1, NTRAIN, DFEAT, generator=g, dtype=torch.float64)
+    y = torch.randn(*Out, NTRAIN, generator=g, dtype=torch.float64)
+    if o["lik"] == "bernoulli":
+        y = (y > 0).to(torch.float64)
+    elif o["lik"] == "beta":
+        y = torch.sigmoid(y)
+    fixed = 0.05 + 0.2 * torch.rand(*P, NTRAIN, generator=g, dtype=torch.float64)
+    cls = _obj_class(o["cls"])
+    modes = ["value"] if o["combine"] else ["data", "kl"] + (["prior"] if o["prior"] else [])
+
+    def build(B, Zx, fx):
+        m, l = _svgp_model(torch, variant, B, Zx), _obj_likelihood(torch, o["lik"], B, fx)
+        if o["prior"]:
+            _add_priors(m), _add_priors(l)
+        return m.double(), l.double()
+
+    def value(m, l, xx, yy):
+        m.train(), l.train()
+        r = cls(l, m, num_data=NUM_DATA, combine_terms=o["combine"])(m(xx), yy)
+        if o["combine"]:
+            return (r,)
+        if len(r) != 3:
+            raise core.Machinery("combine_terms=False returned %d terms" % len(r))
+        return tuple(r)[:len(modes)]
+    mb, lb = build(tuple(P), Z, fixed)
+    gp = _gen(torch, seed, "objective params", name, P, D2)
+    _svgp_randomize(torch, mb, gp, Z), _randomize(torch, lb, gp)
+    memo = {}
+
+    def ref_of(rep, which):
+        key = tuple(rep["b"])
+        if key not in memo:
+            Zr = Z[tuple(rep["d2"])]
+            mr, lr = build((), Zr, fixed[tuple(rep["p"])])
+            idx = {tuple(P): tuple(rep["p"]), (): ()}
+            idx.setdefault(tuple(D2), tuple(rep["d2"]))
+            _copy_state(mb, mr, idx), _copy_state(lb, lr, idx)
+            mr.variational_strategy.inducing_points.data = Zr.clone()
+            memo[key] = value(mr, lr, x[tuple(rep["d1"])], y[tuple(rep["b"])])
+        return memo[key][which]
+    ok, res = core.guarded(value, mb, lb, x, y)
+    out = []
+    if not ok:
+        ok2, r2 = core.guarded(ref_of, case["reps"][0], 0)
+        if not ok2:
+            raise core.Machinery("objective %s: the non-batched replica fails too on %s: %s" % (name, _tri(case), r2))
+    for which, mode in enumerate(modes):
+        if not ok:
+            out.append(_result("objective", name, mode, case, seed, "raises", "the batched objective raises %s; every replica evaluates" % res,
+                               len(case["reps"]), extra_case=dict(obj=o)))
+            continue
+        t = res[which]
+        if not o["combine"]:
+            # a term is stored with the batch shape of what it depends on: read it against the batch of the objective
+            okb, t = core.guarded(torch.broadcast_to, t, tuple(Out))
+            if not okb:
+                out.append(_result("objective", name, mode, case, seed, "shape", "term %s has shape %s, the batch of the objective is %s" % (
+                    mode, tuple(res[which].shape), tuple(Out)), len(case["reps"]), extra_case=dict(obj=o)))
+                continue
+        outcome, detail = _compare_elements(torch, t, case, lambda rep: ref_of(rep, which), MTOL, "objective" if o["combine"] else "term " + mode)
+        out.append(_result("objective", name, mode, case, seed, outcome, detail, len(case["reps"]), extra_case=dict(obj=o)))
+    return out
+
+
+def objective_worker(item):
+    torch = core.setup_torch()
+    o = item["obj"]
+    out = []
+    for case in item["cases"]:
+        if o["cls"] in OBJ_EXACT:
+            out += _obj_exact_cell(torch, o, case, item["seed"])
+        else:
+            out += _obj_var_cell(torch, o, case, item["seed"])
+    return out
+
+
+# =============================================================================================
 # IndependentModelList / SumMarginalLogLikelihood: members with batch shapes P, D1, D2 (they need not have anything in common)
 # =============================================================================================
 NFANT = 2                                    # fantasy points per member (the same number for every member)
-LIST_OPS = ("call_train", "call_eval", "likelihood", "sum_mll", "fantasy", "fantasy_fast_pred_var")     # Batch.tla ListOps
+LIST_OPS = ("call_train", "call_eval", "likelihood", "sum_mll", "sum_loo", "fantasy", "fantasy_fast_pred_var")     # Batch.tla ListOps
+SUM_OPS = (("sum_mll", "sum-mll", "ExactMarginalLogLikelihood"), ("sum_loo", "sum-loo", "LeaveOneOutPseudoLikelihood"))
 
 
 def _member_likelihood(torch, kind, B, n, g):
@@ -926,10 +1145,12 @@ def _list_side(torch, gpytorch, models, tests, fant, noise_arg, fast, as_list):
                 m.train()
             if as_list:
                 run("call_train", lambda: fl(ml(*ml.train_inputs)))
-                run("sum_mll", lambda: [gpytorch.mlls.SumMarginalLogLikelihood(ml.likelihood, ml)(ml(*ml.train_inputs), ml.train_targets)])
+                for op, _, cn in SUM_OPS:
+                    run(op, lambda: [gpytorch.mlls.SumMarginalLogLikelihood(ml.likelihood, ml, mll_cls=getattr(gpytorch.mlls, cn))(ml(*ml.train_inputs), ml.train_targets)])
             else:
                 run("call_train", lambda: fl([m(*m.train_inputs) for m in models]))
-                run("sum_mll", lambda: [gpytorch.mlls.ExactMarginalLogLikelihood(m.likelihood, m)(m(*m.train_inputs), m.train_targets) for m in models])
+                for op, _, cn in SUM_OPS:
+                    run(op, lambda: [getattr(gpytorch.mlls, cn)(m.likelihood, m)(m(*m.train_inputs), m.train_targets) for m in models])
         for m in models:
             m.eval()
         if as_list:
@@ -1022,38 +1243,39 @@ def modellist_worker(item):
             r["nontrivial"] = n > 0
             r["both_raise"] = both_raise
             out.append(r)
-        # SumMarginalLogLikelihood = mean of the members' mlls (element b: every member read at its un-broadcast index)
-        bad = None
-        (ls, lv), (as_, av) = sides["sum_mll"]
-        if ls == "raises" and as_ == "raises":
-            pass
-        elif ls == "raises" or as_ == "raises":
-            bad = ("raises", "SumMarginalLogLikelihood raises %s; the members' own marginal log likelihoods: %s" % (lv if ls == "raises" else "-", av if as_ == "raises" else "fine"))
-        else:
-            smll, mlls = lv[0], av
-            wrong = [i for i, m_ in enumerate(mlls) if tuple(m_.shape) != tuple(shapes[i])]
-            if wrong:
-                bad = ("shape", "the marginal log likelihood of member %d on its own has shape %s, its batch shape is %s" % (
-                    wrong[0], tuple(mlls[wrong[0]].shape), tuple(shapes[wrong[0]])))
-            elif len(shapes) == 3:
-                if tuple(smll.shape) != tuple(case["out"]):
-                    bad = ("shape", "SumMarginalLogLikelihood has shape %s, the members' batch shapes broadcast to %s" % (tuple(smll.shape), tuple(case["out"])))
-                else:
-                    for rep in case["reps"]:
-                        want = (mlls[0][tuple(rep["p"])] + mlls[1][tuple(rep["d1"])] + mlls[2][tuple(rep["d2"])]) / 3
-                        good, why = core.close(smll[tuple(rep["b"])], want, *MTOL)
-                        if not good:
-                            bad = ("values", "element %s is not the mean of the members' marginal log likelihoods: %s" % (rep["b"], why))
-                            break
+        # SumMarginalLogLikelihood(mll_cls) = mean of the members' objectives (element b: every member read at its un-broadcast index)
+        for op, mode, cn in SUM_OPS:
+            bad = None
+            (ls, lv), (as_, av) = sides[op]
+            if ls == "raises" and as_ == "raises":
+                pass
+            elif ls == "raises" or as_ == "raises":
+                bad = ("raises", "SumMarginalLogLikelihood(%s) raises %s; the members' own objectives: %s" % (cn, lv if ls == "raises" else "-", av if as_ == "raises" else "fine"))
             else:
-                good, why = core.close(smll, sum(mlls) / len(mlls), *MTOL)
-                if not good:
-                    bad = ("values", "not the mean of the members' marginal log likelihoods: %s" % why)
-        both = ls == "raises" and as_ == "raises"
-        r = _result("modellist", nm, "sum-mll", case, seed, bad and bad[0], bad[1] if bad else "", 0 if both else len(case["reps"]) if len(shapes) == 3 else 1, extra)
-        r["nontrivial"] = not both
-        r["both_raise"] = both
-        out.append(r)
+                smll, mlls = lv[0], av
+                wrong = [i for i, m_ in enumerate(mlls) if tuple(m_.shape) != tuple(shapes[i])]
+                if wrong:
+                    bad = ("shape", "the %s of member %d on its own has shape %s, its batch shape is %s" % (
+                        cn, wrong[0], tuple(mlls[wrong[0]].shape), tuple(shapes[wrong[0]])))
+                elif len(shapes) == 3:
+                    if tuple(smll.shape) != tuple(case["out"]):
+                        bad = ("shape", "SumMarginalLogLikelihood(%s) has shape %s, the members' batch shapes broadcast to %s" % (cn, tuple(smll.shape), tuple(case["out"])))
+                    else:
+                        for rep in case["reps"]:
+                            want = (mlls[0][tuple(rep["p"])] + mlls[1][tuple(rep["d1"])] + mlls[2][tuple(rep["d2"])]) / 3
+                            good, why = core.close(smll[tuple(rep["b"])], want, *MTOL)
+                            if not good:
+                                bad = ("values", "element %s is not the mean of the members' %s: %s" % (rep["b"], cn, why))
+                                break
+                else:
+                    good, why = core.close(smll, sum(mlls) / len(mlls), *MTOL)
+                    if not good:
+                        bad = ("values", "not the mean of the members' %s: %s" % (cn, why))
+            both = ls == "raises" and as_ == "raises"
+            r = _result("modellist", nm, mode, case, seed, bad and bad[0], bad[1] if bad else "", 0 if both else len(case["reps"]) if len(shapes) == 3 else 1, extra)
+            r["nontrivial"] = not both
+            r["both_raise"] = both
+            out.append(r)
     return out
 
 
@@ -1097,11 +1319,26 @@ def selfcheck_worker(item):
 
 # =============================================================================================
 WORKERS = dict(kernel=kernel_worker, struct=struct_worker, mean=mean_worker, likelihood=likelihood_worker, exact=exact_worker, svgp=svgp_worker,
-               modellist=modellist_worker, selfcheck=selfcheck_worker)
+               modellist=modellist_worker, selfcheck=selfcheck_worker, objective=objective_worker)
+
+# objectives: the cases every configuration is replayed on whatever the sample (batch ranks 1 and 2 with equal shapes, parameters broadcast over
+# the data and the data over the parameters), as (P, D1) / (P, D1, D2)
+OBJ_ANCHORS_EXACT = (((2,), (2,)), ((3, 2), (3, 2)), ((2,), ()), ((), (2,)), ((2,), (3, 2)), ((), (3, 2)), ((3, 1), (1, 2)))
+OBJ_ANCHORS_VAR = (((2,), (2,), (2,)), ((3, 2), (3, 2), (3, 2)), ((2,), (), ()), ((), (2,), ()), ((3, 2), (2,), ()))
+
+
+def obj_core(o):
+    """the plain configurations: replayed on every case (exact) / on the larger sample (variational) in the quick tier"""
+    return o["lik"] == "gaussian" and not o["prior"] and o["added"] == "none" and o["combine"]
 
 
 def _dispatch(item):
-    return WORKERS[item["kind"]](item)
+    import time
+    t0 = time.process_time()
+    res = WORKERS[item["kind"]](item)
+    if res:
+        res[0]["cpu"] = (item["kind"], time.process_time() - t0)       # (accounting only: share of the replay time per kind of module)
+    return res
 
 
 def _group(cases, keys):
@@ -1121,7 +1358,9 @@ def run(ck):
                "broadcast batch has at least two elements (cross-talk is observable).  Composite kernels: the triple read as (A, B, D) = the batch "
                "shapes owned by the nodes of the kernel tree and the data batch, times every row count of the case's size-coincidence classes "
                "(generic, = feature size, = size of a batch axis), times diag / lazy diagonal / full evaluation.  Model lists: every sequence of "
-               "member kinds of length 1..3 (TLC), each on triples of member batch shapes, times every operation of the list")
+               "member kinds of length 1..3 (TLC), each on triples of member batch shapes, times every operation of the list.  Objectives: every "
+               "constructible configuration (class of gpytorch.mlls x likelihood / noise model x priors x added loss x combine_terms; TLC) on triples "
+               "of the lattice, every element (and with combine_terms=False every term) compared in value with the replica")
     ck.assumptions = [
         "replica = a freshly constructed non-batched module of the same class holding slice ShUnb(b, P) of every parameter and buffer "
         "(a parameter of a sub-module built without batch shape is shared), applied to slices ShUnb(b, D1), ShUnb(b, D2) of the data",
@@ -1145,6 +1384,14 @@ def run(ck):
         "%d kernels of the plain catalogue, additionally rows = 2 (= feature size) and rows = the size of every axis of P, D1, D2; x2 has 3 rows" % len(CO_KERNELS),
         "lazy-diag: k(x1, x2).diagonal() (what MultivariateNormal.variance reads) against the same call on the replica; not for IndexKernel, whose "
         "forward ignores diag (its lazy diagonal raises, batched or not)",
+        "objectives: ExactMarginalLogLikelihood and LeaveOneOutPseudoLikelihood on an exact GP (constant mean, ScaleKernel(Matern ARD)) with a Gaussian, "
+        "fixed-noise (+ learned noise) or heteroskedastic (HeteroskedasticNoise over a noise GP; with and without NoiseModelAddedLossTerm) likelihood; "
+        "VariationalELBO, PredictiveLogLikelihood and GammaRobustVariationalELBO (num_data=%d) on an SVGP (Cholesky q(u), whitened) with a Gaussian, "
+        "fixed-noise, Student-t, Bernoulli, Laplace or Beta likelihood (Gaussian family only for the gamma-robust bound); SumMarginalLogLikelihood with "
+        "mll_cls = exact / leave-one-out over the model lists.  With priors: the same non-batched Gamma / Normal prior on outputscale, constant, noise and "
+        "lengthscale of the batched model and of the replica (the replica's log prior is the prior of its slice of the parameters).  A term returned by "
+        "combine_terms=False is compared after broadcasting it to the batch of the objective.  DeepApproximateMLL / DeepPredictiveLogLikelihood average "
+        "over their leading axis (samples / quadrature sites, not replicas) and InducingPointKernelAddedLossTerm belongs to a structured kernel: not replayed" % NUM_DATA,
         "derivative kernels (RBFKernelGrad, ...), structured kernels (Grid*, InducingPoint), HammingIMQ and the deprecated last_dim_is_batch "
         "kernels are not claimed batch-broadcast capable and are not replayed",
     ]
@@ -1153,12 +1400,15 @@ def run(ck):
                       "and mode on every triple and every element, quick does so for %d kernels, the means and the likelihood, and replays the "
                       "other kernels and the models on a seeded subset of the triples (every element of each); composite kernels: quick replays %d of "
                       "%d on every triple whose two node shapes are not both non-empty and different (inherit / own / both / none) and samples the "
-                      "rest; every configuration of member kinds of the model lists is replayed in both tiers" % (
-                          len(QUICK_FULL_KERNELS), len(STRUCT_QUICK_FULL), len(struct_catalogue())))
+                      "rest; every configuration of member kinds of the model lists is replayed in both tiers; every configuration of the objectives is "
+                      "replayed in both tiers: thorough on every triple (the variational configurations with priors / other likelihoods / separate terms on "
+                      "the anchors and a seeded quarter), quick on %d + %d anchor cases (batch ranks 1 and 2, parameters broadcast over the data "
+                      "and the data over the parameters) and a seeded sample (the plain ExactMarginalLogLikelihood / LeaveOneOutPseudoLikelihood on every "
+                      "(P, D1))" % (len(QUICK_FULL_KERNELS), len(STRUCT_QUICK_FULL), len(struct_catalogue()), len(OBJ_ANCHORS_EXACT), len(OBJ_ANCHORS_VAR)))
     import time
     timing = {}
     t0 = time.time()
-    cases, rejected, preds, configs = run_tlc(ck)
+    cases, rejected, preds, configs, objectives = run_tlc(ck)
     timing["tlc"] = round(time.time() - t0, 1)
     ck.section("tlc", broadcastable_triples=len(cases), rejected_triples=len(rejected), elements=sum(len(c["reps"]) for c in cases))
     seed = ck.seed
@@ -1208,6 +1458,17 @@ def run(ck):
     for vi, variant in enumerate(sv if thorough else sv[:1]):
         for (P, D2), cs in _group(some(cases, 0.3), ["P", "D2"]).items():
             items.append(dict(kind="svgp", variant=variant, P=list(P), D2=list(D2), seed=seeds[0], cases=cs))
+    # objectives: every configuration of Batch.tla on the anchors and on a sample of the lattice (the plain configurations: on all of it / more)
+    tri = lambda c: (tuple(c["P"]), tuple(c["D1"]), tuple(c["D2"]))      # noqa: E731
+    for o in objectives:
+        if o["cls"] in OBJ_EXACT:
+            frac = 1.0 if thorough or obj_core(o) else 0.08
+            cs_o = [c for c in unary if tri(c)[:2] in OBJ_ANCHORS_EXACT or rnd.random() < frac]
+        else:
+            frac = (1.0 if obj_core(o) else 0.25) if thorough else (0.04 if obj_core(o) else 0.006)
+            cs_o = [c for c in cases if tri(c) in OBJ_ANCHORS_VAR or rnd.random() < frac]
+        for i in range(0, len(cs_o), 6):
+            items.append(dict(kind="objective", obj=o, seed=seeds[0], cases=cs_o[i:i + 6]))
     # model lists: every configuration of member kinds of Batch.tla (thorough: each on several triples; quick: the triples of a 10% sample
     # take the configurations in turn, heterogeneous ones first)
     by_len = {k: [c for c in configs if len(c["kinds"]) == k] for k in (1, 2, 3)}
@@ -1242,8 +1503,16 @@ def run(ck):
     pred_of = {(tuple(c["P"]), tuple(c["D1"]), tuple(c["D2"])): c["pred"] for c in cases}
     case_of = {(tuple(c["P"]), tuple(c["D1"]), tuple(c["D2"])): c for c in cases}
     structs = struct_catalogue()
+    objs = {obj_name(o): o for o in objectives}
+    obj_seen, obj_cfg_seen = {}, set()
     conf = {}
     counts = {}
+    cpu = {}
+    for r in results:
+        if "cpu" in r:
+            k, t = r.pop("cpu")
+            cpu[k] = cpu.get(k, 0.0) + t
+    ck.extra["replay_cpu_s_by_kind"] = {k: round(v, 1) for k, v in sorted(cpu.items())}
     for r in results:
         cell = r.pop("cell", None)
         if r.get("machinery") or cell is None:
@@ -1255,10 +1524,24 @@ def run(ck):
         d["failing_cells"] += 0 if r["ok"] else 1
         if kind == "modellist":
             d["cells_where_list_and_member_both_raise"] = d.get("cells_where_list_and_member_both_raise", 0) + (1 if r.pop("both_raise", False) else 0)
-        if kind != "kernel":
+        if kind == "objective":
+            name, mode, P, D1, D2 = cell
+            o = objs[name]
+            d["cells_with_priors"] = d.get("cells_with_priors", 0) + (1 if o["prior"] else 0)
+            cs = case_of[(P, D1, D2)]
+            nb = len(cs["reps"])
+            if nb >= 2:
+                obj_seen.setdefault(o["cls"], set()).add(len(cs["out"]))
+                if cs["vnorm"][o["cls"]] != "ok":
+                    d["cells_where_variant_norm_numel_differs"] = d.get("cells_where_variant_norm_numel_differs", 0) + 1
+                obj_cfg_seen.add(name)
+            bad_sites = [s for s in obj_sites(o, mode) if pred_of[(P, D1, D2)][s] != "ok"]
+        elif kind != "kernel":
             continue
         name, mode, P, D1, D2 = cell
-        if name in structs:
+        if kind == "objective":
+            pass
+        elif name in structs:
             # composite kernels: Batch.tla's structure predictions (the cells of the case whose outcome is not ok)
             if mode == "batch_shape":
                 continue
@@ -1308,7 +1591,15 @@ def run(ck):
     ck.extra["timing_s"] = timing
     for kind, d in counts.items():
         ck.section(kind, **d)
-    for need in ("kernel", "kernel-structure", "mean", "likelihood", "exact", "svgp", "modellist"):
+    for cl in OBJ_CLASSES:
+        if not {1, 2} <= obj_seen.get(cl, set()):
+            ck.vacuous("objective %s: no cell with a batch of rank 1 and of rank 2 with two elements or more was replayed (ranks %s)" % (cl, sorted(obj_seen.get(cl, ()))))
+    if set(objs) - obj_cfg_seen:
+        ck.vacuous("objectives: %d of %d configurations were not replayed on a batch with two elements or more, e.g. %s" % (
+            len(set(objs) - obj_cfg_seen), len(objs), sorted(set(objs) - obj_cfg_seen)[0]))
+    if not counts.get("objective", {}).get("cells_where_variant_norm_numel_differs"):
+        ck.vacuous("no replayed objective cell lies where Batch.tla tells the variant norm_numel from the code")
+    for need in ("kernel", "kernel-structure", "mean", "likelihood", "exact", "svgp", "modellist", "objective"):
         if not counts.get(need, {}).get("cells"):
             ck.vacuous("no %s cell was replayed" % need)
     if not counts.get("kernel-structure", {}).get("cells_where_variant_diag_own_batch_differs") and "call_diag" in REPAIRED:
@@ -1371,6 +1662,8 @@ def replay(rep):
         res = svgp_worker(dict(variant=name, P=case["P"], D2=case["D2"], seed=seed, cases=[case]))
     elif kind == "modellist":
         res = modellist_worker(dict(seed=seed, cases=[case], configs=[c["config"]]))
+    elif kind == "objective":
+        res = objective_worker(dict(obj=c["obj"], seed=seed, cases=[case]))
     else:
         print("MACHINERY-FAILURE unknown replay kind", kind)
         return 2
